@@ -221,103 +221,143 @@ func vfReaderConn(tc *vfConn, isServer bool, R int) *Conn {
 	return newConn(tc, isServer, R, 16, nil, nil, nil)
 }
 
-// vfH_rt_e2e: C01/C02 end to end: M messages written by any write program,
-// decoded by the reference decoder (C02) and read back by the peer Conn (C01).
-func vfH_rt_e2e() {
-	vfInit()
-	tier := vfParam("tier", 0)
-	M := vfParam("M", 1)
-	isServer := vfChoose(2) == 1
-	W := vfPick([]int{1, 3, 8})
-	usePool := vfChoose(2) == 1
-	var pool BufferPool
-	var vp *vfPool
-	if usePool {
-		vp = &vfPool{reuse: true}
-		pool = vp
-	}
+
+type vfSent struct {
+	mt   int
+	data []byte
+	comp bool
+}
+
+// vfWriteSide runs M messages through write programs on a fresh writer Conn
+// and returns the transport, the Conn and what was sent. wpSet selects the
+// write programs allowed.
+func vfWriteSide(isServer bool, W int, pool BufferPool, compress bool, M int, lens []int, wps []int) (*vfConn, *Conn, []vfSent, int) {
+	return vfWriteSideT(isServer, W, pool, compress, M, lens, wps, false)
+}
+
+func vfWriteSideT(isServer bool, W int, pool BufferPool, compress bool, M int, lens []int, wps []int, toggles bool) (*vfConn, *Conn, []vfSent, int) {
 	wt := vfNewConn(nil)
 	wc := newConn(wt, isServer, 0, W, pool, nil, nil)
-
-	type sent struct {
-		mt   int
-		data []byte
+	if compress {
+		wc.newCompressionWriter = compressNoContextTakeover
 	}
-	var msgs []sent
-	lens := vfLens(W, tier)
+	var msgs []vfSent
 	npings := 0
-	var lastWP int
+	lastWP := 0
 	for i := 0; i < M; i++ {
-		mt := 1 + vfChoose(2)
+		wp := vfPick(wps)
 		n := vfPick(lens)
+		mt := 1 + (wp+n+i)%2
 		data := vfBytes(n)
 		orig := append([]byte(nil), data...)
-		wp := vfChoose(vfNumWP)
 		k := 0
 		switch wp {
 		case vfWPWriterSplit, vfWPPingBetween:
-			k = vfPick(vfDedup([]int{0, 1, W - 1, W, W + 1, n - 1, n}, n))
+			k = vfPick(vfDedup([]int{0, 1, W, W + 1, n - 1}, n))
 		case vfWPReadFrom:
-			k = vfPick(vfDedup([]int{1, W, W + 1, n}, n+1))
+			k = vfPick(vfDedup([]int{1, W + 1, n}, n+1))
 			if k == 0 {
 				k = 1
 			}
 		case vfWPJSONClient:
 			k = vfPick([]int{0, W})
 		}
+		comp := compress
+		if compress && toggles && i > 0 {
+			// toggling write compression / level between messages (C15)
+			switch vfChoose(3) {
+			case 1:
+				wc.EnableWriteCompression(false)
+			case 2:
+				lvl := vfInt()
+				vfAssume(lvl >= -2)
+				vfAssume(lvl <= 9)
+				vfAssert(wc.SetCompressionLevel(lvl) == nil, "level-accepted")
+			}
+		}
+		comp = compress && wc.enableWriteCompression
 		err := vfDoWrite(wc, wp, mt, data, k)
 		vfAssert(err == nil, "write-accepted")
 		if wp == vfWPPingBetween {
 			npings++
 		}
-		msgs = append(msgs, sent{mt, orig})
+		msgs = append(msgs, vfSent{mt, orig, comp})
 		lastWP = wp
 	}
 	if lastWP == vfWPImplicitClose {
-		// close the last writer the way an application would have to
+		// the application closes the last writer by asking for the next one
 		w, err := wc.NextWriter(BinaryMessage)
 		vfAssert(err == nil, "write-accepted")
 		vfAssert(w.Close() == nil, "write-accepted")
-		msgs = append(msgs, sent{BinaryMessage, nil})
+		msgs = append(msgs, vfSent{BinaryMessage, nil, wc.newCompressionWriter != nil && wc.enableWriteCompression})
 	}
-	wire := wt.wire()
+	return wt, wc, msgs, npings
+}
 
-	// ---- C02: judge the wire with the reference decoder ----
-	s := specDecodeStream(wire, !isServer, false)
+// vfJudgeWire is the C02 oracle: the reference decoder accepts the wire and
+// the decoded messages are exactly the ones sent.
+func vfJudgeWire(wire []byte, fromClient bool, pmce bool, msgs []vfSent, nctl int) specStream {
+	s := specDecodeStream(wire, fromClient, pmce)
 	vfAssert(s.ok, "wire-wellformed")
 	vfAssert(!s.open, "wire-message-finished")
+	vfAssert(s.rest == len(wire), "wire-no-trailing-bytes")
 	vfAssert(len(s.msgs) == len(msgs), "wire-one-message-per-call")
 	for i, m := range s.msgs {
 		vfAssert(m.opcode == msgs[i].mt, "wire-opcode")
-		vfAssert(!m.compressed, "wire-rsv1-clear")
-		vfAssert(len(m.payload) == len(msgs[i].data), "wire-length")
-		vfAssert(vfAllEq(m.payload, msgs[i].data), "wire-payload")
+		vfAssert(m.compressed == msgs[i].comp, "wire-rsv1-iff-compressed")
+		payload := m.payload
+		if m.compressed {
+			out, ok, inModel := specInflateStored(m.payload)
+			vfAssert(inModel, "wire-inflate-in-model")
+			vfAssert(ok, "wire-inflates")
+			payload = out
+		}
+		vfAssert(len(payload) == len(msgs[i].data), "wire-length")
+		vfAssert(vfAllEq(payload, msgs[i].data), "wire-payload")
 	}
-	vfAssert(len(s.ctls) == npings, "wire-controls")
-	if usePool {
-		vfAssert(vp.gets == vp.puts, "pool-balanced")
-		vfAssert(wc.writeBuf == nil, "pool-none-held")
-	}
+	vfAssert(len(s.ctls) == nctl, "wire-controls")
+	return s
+}
 
-	// ---- C01: read back through the peer ----
-	R := vfPick([]int{125, 16})
+// vfReadBack is the C01 oracle: the peer Conn, fed the wire under the given
+// read configuration, yields exactly the messages sent.
+func vfReadBack(wire []byte, readerIsServer bool, pmce bool, msgs []vfSent, npings int, cfg int) {
 	rt := vfNewConn(wire)
-	switch vfChoose(3) {
+	R, rp, a := 125, vfRPReadMessage, 1
+	switch cfg {
 	case 0:
 		rt.chunkMode = vfChunkMax
 	case 1:
 		rt.chunkMode = vfChunkOne
+		R = 16
 	case 2:
+		rt.chunkMode = vfChunkOne
+		rp, a = vfRPNextReader, 3
+	case 3:
+		rt.chunkMode = vfChunkMax
+		rp, a, R = vfRPNextReader, 8, 16
+	case 4:
+		rt.chunkMode = vfChunkMax
+		rp, a = vfRPJoin, 200
+	case 5:
 		rt.chunkMode = vfChunkScript
+		rp, a = vfRPNextReader, 200
+		if len(wire) > 1 {
+			rt.script = []int{vfPick(vfDedup([]int{1, 2, 3, len(wire) / 2, len(wire) - 1}, len(wire)-1))}
+		}
+	case 6:
+		rt.chunkMode = vfChunkScript
+		rp, a = vfRPNextReader, 1
 		if len(wire) > 1 {
 			rt.script = []int{1 + vfChoose(len(wire)-1)}
 		}
 	}
-	rc := vfReaderConn(rt, !isServer, R)
+	rc := vfReaderConn(rt, readerIsServer, R)
+	if pmce {
+		rc.newDecompressionReader = decompressNoContextTakeover
+	}
 	pings := 0
 	rc.SetPingHandler(func(string) error { pings++; return nil })
-	rp := vfChoose(vfNumRP)
-	a := vfPick([]int{1, 3, 8, 200})
 	if rp == vfRPJoin {
 		r := JoinMessages(rc, "")
 		var all []byte
@@ -326,7 +366,7 @@ func vfH_rt_e2e() {
 			n, err := r.Read(buf)
 			all = append(all, buf[:n]...)
 			if err != nil {
-				vfAssert(IsCloseError(err, CloseAbnormalClosure) || err == io.EOF, "join-ends-at-stream-end")
+				vfAssert(IsCloseError(err, CloseAbnormalClosure), "join-ends-at-stream-end")
 				break
 			}
 			vfAssert(i < 4*len(wire)+64, "reader-makes-progress")
@@ -350,5 +390,121 @@ func vfH_rt_e2e() {
 		vfAssert(err != nil, "rt-exactly-once")
 	}
 	vfAssert(pings == npings, "rt-pings-delivered")
+}
+
+var vfAllWPs = []int{vfWPWriteMessage, vfWPWriterOne, vfWPWriterSplit, vfWPWriteString, vfWPReadFrom, vfWPPrepared, vfWPPingBetween, vfWPImplicitClose, vfWPJSONClient}
+
+// vfH_rt_e2e (C01, also feeds C02/C15/C20): M messages through every write
+// program, judged on the wire by the reference decoder, then read back by a
+// peer Conn of the opposite role under several read configurations.
+func vfH_rt_e2e() {
+	vfInit()
+	tier := vfParam("tier", 0)
+	M := vfParam("M", 1)
+	isServer := vfChoose(2) == 1
+	W := vfPick([]int{1, 8})
+	compress := vfChoose(2) == 1
+	var pool BufferPool
+	var vp *vfPool
+	if W == 8 {
+		vp = &vfPool{reuse: true}
+		pool = vp
+	}
+	lens := vfLens(W, tier)
+	wps := vfAllWPs
+	if M > 1 {
+		lens = vfDedup([]int{0, 1, W + 1, 2*(W+14) + 1}, 64)
+		wps = []int{vfWPWriteMessage, vfWPWriterSplit, vfWPReadFrom, vfWPPrepared, vfWPImplicitClose}
+	}
+	if compress {
+		vfFlateEmit = vfPick([]int{0, 3, 5})
+	}
+	wt, wc, msgs, npings := vfWriteSide(isServer, W, pool, compress, M, lens, wps)
+	wire := wt.wire()
+	vfJudgeWire(wire, !isServer, compress, msgs, npings)
+	if vp != nil {
+		vfAssert(vp.gets == vp.puts, "pool-balanced")
+		vfAssert(wc.writeBuf == nil, "pool-none-held")
+	}
+	ncfg := 5
+	if M > 1 {
+		ncfg = 3
+	}
+	vfReadBack(wire, !isServer, compress, msgs, npings, vfChoose(ncfg))
 	vfReach("rt-e2e-end")
+}
+
+// vfH_rt_chunk (C01/C03): two messages (the first with a ping between its
+// fragments), every split point of the stream between two transport reads.
+func vfH_rt_chunk() {
+	vfInit()
+	isServer := vfChoose(2) == 1
+	W := 3
+	compress := vfChoose(2) == 1
+	wt := vfNewConn(nil)
+	wc := newConn(wt, isServer, 0, W, nil, nil, nil)
+	if compress {
+		wc.newCompressionWriter = compressNoContextTakeover
+	}
+	n1 := vfPick([]int{2, 7})
+	d1 := vfBytes(n1)
+	o1 := append([]byte(nil), d1...)
+	vfAssert(vfDoWrite(wc, vfWPPingBetween, TextMessage, d1, vfPick([]int{0, 1, n1 - 1})) == nil, "write-accepted")
+	n2 := vfPick([]int{0, 5})
+	d2 := vfBytes(n2)
+	o2 := append([]byte(nil), d2...)
+	vfAssert(vfDoWrite(wc, vfWPWriteMessage, BinaryMessage, d2, 0) == nil, "write-accepted")
+	msgs := []vfSent{{TextMessage, o1, compress}, {BinaryMessage, o2, compress}}
+	wire := wt.wire()
+	vfReadBack(wire, !isServer, compress, msgs, 1, 6)
+	vfReach("rt-chunk-end")
+}
+
+// vfH_compress_toggle (C15/C01): EnableWriteCompression / SetCompressionLevel
+// (any valid level, symbolic) toggled between messages never makes the output
+// undecodable; RSV1 tracks the setting; invalid levels are refused.
+func vfH_compress_toggle() {
+	vfInit()
+	isServer := vfChoose(2) == 1
+	W := 8
+	vfFlateEmit = vfPick([]int{0, 4})
+	wt := vfNewConn(nil)
+	wc := newConn(wt, isServer, 0, W, nil, nil, nil)
+	wc.newCompressionWriter = compressNoContextTakeover
+	var msgs []vfSent
+	send := func(n int) {
+		wp := vfPick([]int{vfWPWriteMessage, vfWPPrepared})
+		data := vfBytes(n)
+		orig := append([]byte(nil), data...)
+		comp := wc.enableWriteCompression
+		vfAssert(vfDoWrite(wc, wp, BinaryMessage, data, 0) == nil, "write-accepted")
+		msgs = append(msgs, vfSent{BinaryMessage, orig, comp})
+	}
+	send(3)
+	switch vfChoose(4) {
+	case 1:
+		wc.EnableWriteCompression(false)
+	case 2:
+		lvl := vfInt()
+		err := wc.SetCompressionLevel(lvl)
+		vfAssert((err == nil) == (lvl >= -2 && lvl <= 9), "level-accepted-iff-valid")
+		if err != nil {
+			vfAssert(wc.compressionLevel == defaultCompressionLevel, "invalid-level-ignored")
+		}
+	case 3:
+		wc.EnableWriteCompression(false)
+		wc.EnableWriteCompression(true)
+	}
+	send(2*(W+14) + 1)
+	switch vfChoose(3) {
+	case 1:
+		wc.EnableWriteCompression(false)
+	case 2:
+		wc.EnableWriteCompression(true)
+	}
+	send(1)
+	wire := wt.wire()
+	vfJudgeWire(wire, !isServer, true, msgs, 0)
+	vfReadBack(wire, !isServer, true, msgs, 0, vfChoose(2))
+	vfReach("toggle-end")
 }
